@@ -88,3 +88,20 @@ C06 = [
             "n2", "x", [[["x", -1]], [["x", 2]]], with_derivative=True),
     },
 ]
+
+
+import json as _json
+import os as _os
+
+_DIR = _os.path.join(_os.path.dirname(_os.path.dirname(_os.path.abspath(__file__))), "directed")
+
+
+def _load(name):
+    with open(_os.path.join(_DIR, name)) as f:
+        return _json.load(f)
+
+
+C09 = [_load("F4.json")]
+C06 = C06 + [dict(_load("F4.json"), what="in the give-up regime (directed/F4.json, degree-~40 Horner polynomial) the late "
+                  "Partial's as_expression() and the early Derivative's as_expression() computed after it are "
+                  "structurally unequal (reduction flags left by the first simplification)")]
